@@ -6,7 +6,7 @@ CFG = dict(
         # sphere
         "sphere_eq", "sphere_neg_iff", "sphere_zero_iff", "sphere_lipschitz", "sphere_exact_le", "sphere_exact_attained",
         # plane
-        "plane_eq", "plane_lipschitz", "plane_exact_le", "plane_exact_attained",
+        "plane_eq", "plane_neg_iff", "plane_zero_iff", "plane_lipschitz", "plane_exact_le", "plane_exact_attained",
         # set operations and translation
         "subtract_neg_iff", "translate_spec", "translate_moves", "union_neg_iff", "union_none_iff", "intersect_neg_iff",
         "lipschitz_min", "lipschitz_max", "subtract_lipschitz", "translate_lipschitz", "union_lipschitz", "intersect_lipschitz",
@@ -28,11 +28,14 @@ CFG = dict(
         "rounded box / rounded cylinder with rounding > 0: negative exactly where the un-rounded core field is below the rounding radius (theorem); that this sub-level set is the Minkowski sum of the core with a ball is not proved",
         "subtract: f<0 iff base<0 and 0<sub (strictly outside the subtracted shape): on the subtracted shape's surface f=0, so 'difference of interiors' is read as interior(A) minus closure(B)",
         "capsule with start = end is excluded (guard a ≠ b; the property quantifies over sizes > 0); in float64 the Go code returns NaN there",
+        "plane: the Lipschitz and exact-distance theorems need a unit normal (n·n = 1); with a non-unit normal the field is a scaled distance (not claimed)",
+        "sphere_eq, plane_eq, line_eq, roundedBox_eq, translate_spec are definitional unfoldings (rfl) listed for reference: they fix what the regenerated closures compute, they are not property clauses",
+        "VarryingThicknessLine (union of rounded cones) inherits the rounded-cone residue",
         "IEEE rounding: theorems are over ℝ",
     ],
     assumptions=["float64 arithmetic in Go on amd64 is IEEE-754 without FMA contraction"],
     manifest=dict(
-        text="Lean 4 theorems over ℝ about the SDF closures regenerated from math/sdf/*.go and line3D.go on every run: sign and zero-set characterisation, 1-Lipschitz bound (|f p − f q| ≤ |p − q|, proved through Mathlib's Euclidean space; box/rounded box/rounded cylinder via a 1-Lipschitz signed distance to the orthant with an intermediate-value argument; capsule via the minimising property of the clamped projection), exact distance (sphere, plane: both directions; box, capsule: lower bound), union/intersection/subtraction sign laws and Lipschitz closure for any number of operands, translation. Regenerated definitions run at Float and compared bit-for-bit with the Go closures; reference-distance oracles on the Go outputs.",
+        text="PARTIAL (6 of 7 primitive shapes; rounded cone is oracle-only). Lean 4 theorems over ℝ about the SDF closures regenerated from math/sdf/*.go and line3D.go on every run: sign and zero set: geometric characterisation for sphere, plane, box, capsule and the un-rounded cylinder (rounded box / rounded cylinder: negative exactly where the 1-Lipschitz core field is below the rounding radius); 1-Lipschitz bound for all of these (|f p − f q| ≤ |p − q|, proved through Mathlib's Euclidean space; box/rounded box/rounded cylinder via a 1-Lipschitz signed distance to the orthant with an intermediate-value argument; capsule via the minimising property of the clamped projection), exact distance (sphere, plane: both directions; box, capsule: lower bound), union/intersection/subtraction sign laws and Lipschitz closure for any number of operands, translation. Regenerated definitions run at Float and compared bit-for-bit with the Go closures; reference-distance oracles on the Go outputs.",
         note="Trusted: Lean kernel; propext/Classical.choice/Quot.sound; translator and vector table; hand model of Union/Intersect (corresponded); harness; reference SDFs in the driver. Not proved: rounded cone sign/Lipschitz (oracle only); 'attained' direction of exact distance for box/capsule; IEEE rounding.",
         technique="Lean 4 proof over a model regenerated from source (translator) + Float bit-exact correspondence"),
 )
